@@ -55,7 +55,7 @@ func c11History(k *fw.K, quick bool) {
 		m.B = 1 // exact configurations are over-sampled
 	}
 	m.Act = []string{"none", "relu", "leakyrelu", "sigmoid", "tanh", "softmax"}[r.Intn(6)]
-	m.M = []float64{0.01, 0.2, 0, -0.1}[r.Intn(4)]
+	m.M = []float64{0.01, 0.2, 0, -0.1, 1.5, 2, 1}[r.Intn(7)]
 	switch m.Act {
 	case "sigmoid":
 		m.Loss = []string{"mse", "bce", "ce"}[r.Intn(3)]
@@ -311,7 +311,23 @@ func c11History(k *fw.K, quick bool) {
 		}
 		predVal := vals[root-1]
 		tgt := vals[3]
-		if !ref.Close(lv, vals[root].Data[0], lossTol(m.Loss, predVal, tgt), 1e-9) {
+		// the prediction itself is computed in floating point on both sides: each pre-activation carries a rounding error of
+		// about (D+2) ulps of |W|*sum|x| + |B| (all activations here are 1-Lipschitz up to the slope), which the squared error
+		// turns into 2|p-t|*delta + delta^2 per element. Without this term a diverging run (weights 1e8 and beyond) whose
+		// reference residual is exactly 0 has no tolerance at all.
+		tolPred := 0.
+		if m.Loss == "mse" {
+			for i := range predVal.Data {
+				bi, o := i/m.O, i%m.O
+				sx := 0.
+				for d := 0; d < m.D; d++ {
+					sx += math.Abs(x.Data[bi*m.D+d])
+				}
+				delta := 2.3e-16 * float64(m.D+2) * (math.Abs(wBefore.Data[o])*sx + math.Abs(bBefore.Data[o])) * math.Max(1, math.Abs(m.M))
+				tolPred += (2*math.Abs(predVal.Data[i]-tgt.Data[i])*delta + delta*delta) / float64(len(predVal.Data))
+			}
+		}
+		if !ref.Close(lv, vals[root].Data[0], lossTol(m.Loss, predVal, tgt)+tolPred, 1e-9) {
 			k.Failf("step %d: loss = %v, the reference loss at the current weights is %v", step, lv, vals[root].Data[0])
 			return
 		}
